@@ -72,6 +72,9 @@ type scenario struct {
 	migU    int
 	migAt   string
 	migKind string
+	// resync flow: the connection that carries the resetAt-th write request (never an EXEC) after the restart behind the
+	// resynchronisation is closed by the target before the request is looked at (0 = none): a reset, not a crash
+	resetAt int
 }
 
 // caseLine is one unit enumerated by spec/UnitRoute.tla with the spec's verdict
@@ -347,6 +350,9 @@ func genScenario(r *hx.Rng, id int, maxUnits int, cluster bool, refuse string) *
 	if cluster && sc.mode == "sync" && refuse == "" && len(sc.units) >= 3 && r.Chance(50) {
 		sc.resyncAt = 1 + r.Intn(len(sc.units)-2)
 		sc.snapAt = sc.resyncAt + 1 + r.Intn(len(sc.units)-1-sc.resyncAt)
+		if r.Bool() {
+			sc.resetAt = 1 + r.Intn(3)
+		}
 	}
 	if cluster && len(sc.units) >= 3 && sc.mode == "parallel" && r.Chance(60) {
 		sc.stall = 1 + r.Intn(len(sc.units)-2)
@@ -512,6 +518,9 @@ type runner struct {
 	nReq       int
 	emittedLog int
 	leaked     int // connections the tool left open after a run had returned
+	resetArmed atomic.Bool
+	resetLeft  atomic.Int32
+	resetFired atomic.Bool
 }
 
 func (rn *runner) redisCfg() config.RedisConfig {
@@ -802,6 +811,10 @@ func (rn *runner) run(crashAfter int) (died bool, cont bool) {
 		if ended || rn.tg.crashed() || (!refusing && rn.applied() >= want) {
 			break
 		}
+		if rn.resetFired.Load() && time.Until(deadline) > 1500*time.Millisecond {
+			// the run has to notice the reset connection by itself; it is given a moment, then stopped like any other run
+			deadline = time.Now().Add(1500 * time.Millisecond)
+		}
 		time.Sleep(300 * time.Microsecond)
 	}
 	if refusing && !ended && !rn.tg.crashed() {
@@ -837,6 +850,9 @@ func (rn *runner) run(crashAfter int) (died bool, cont bool) {
 	died = rn.tg.crashed()
 	if died {
 		rn.tg.revive() // closes whatever is still open
+	}
+	if rn.resetFired.Swap(false) {
+		died = true // the connection was reset under the run: a fault, the run may end with an error
 	}
 	rn.waitNoConns()
 	rn.flushRaw()
@@ -925,7 +941,21 @@ func installHandOver(sc *scenario, cs *fakeredis.ClusterState, tr *hx.Trace) {
 	}
 }
 
+// resetHolder lets the target's request hook reach the runner that is created after the target
+type resetHolder struct{ rn *runner }
+
+func (h *resetHolder) armed() bool { return h.rn != nil && h.rn.resetArmed.Load() }
+func (h *resetHolder) hit() bool {
+	if h.rn.resetLeft.Add(-1) == 0 {
+		h.rn.resetArmed.Store(false)
+		h.rn.resetFired.Store(true)
+		return true
+	}
+	return false
+}
+
 func runScenario(sc *scenario, tr *hx.Trace) (recv int, reqs int) {
+	resetHook := &resetHolder{}
 	tg := &target{}
 	if sc.cluster {
 		cs, err := fakeredis.NewCluster(2)
@@ -960,6 +990,19 @@ func runScenario(sc *scenario, tr *hx.Trace) (recv int, reqs int) {
 		}
 		for _, nd := range cs.Nodes {
 			nd.Eval = noopScript
+		}
+		if sc.resetAt > 0 {
+			for _, nd := range cs.Nodes {
+				nd.PreExec = func(connID int, db int, name string, args [][]byte, inMulti bool) (interface{}, fakeredis.Action) {
+					if !resetHook.armed() || name == "exec" || !cs.GCount(name) {
+						return nil, fakeredis.Proceed
+					}
+					if resetHook.hit() {
+						return nil, fakeredis.CloseConn
+					}
+					return nil, fakeredis.Proceed
+				}
+			}
 		}
 		// the start-up recovery of a cluster target reads 16384 slots: only writes count as crash points
 		cs.GCount = func(name string) bool {
@@ -997,6 +1040,7 @@ func runScenario(sc *scenario, tr *hx.Trace) (recv int, reqs int) {
 	}
 	defer tg.close()
 	rn := &runner{sc: sc, tg: tg, tr: tr}
+	resetHook.rn = rn
 	us := []map[string]interface{}{}
 	for _, u := range sc.units {
 		us = append(us, map[string]interface{}{"s": u.S, "e": u.E, "n": len(u.Cmds), "txn": u.Txn, "ok": u.Ok})
@@ -1037,7 +1081,20 @@ func runScenario(sc *scenario, tr *hx.Trace) (recv int, reqs int) {
 		rn.flushRaw()
 		// the units up to the snapshot's offset are on the target as part of the snapshot
 		rn.tr.Emit(map[string]interface{}{"ev": "SnapshotApplied", "off": sc.units[sc.snapAt-1].E})
-		if _, cont := rn.run(-1); cont {
+		if sc.resetAt > 0 {
+			rn.resetLeft.Store(int32(sc.resetAt))
+			rn.resetArmed.Store(true)
+		}
+		cont := true
+		for tries := 0; tries < 4 && cont; tries++ {
+			var died bool
+			died, cont = rn.run(-1)
+			if !died {
+				break
+			}
+		}
+		rn.resetArmed.Store(false)
+		if cont {
 			rn.startPoint()
 			rn.startPoint()
 		}
